@@ -84,6 +84,8 @@ class C04(FragHarness, WrapHarness):
         if not q:
             out += tmpl_spaces(dict(tb, algo='O', wmax=1 << 20), ['short', 'longword', 'paras', 'ansi'], entry='wrap')
             out += tmpl_spaces(dict(tb, le='CRLF'), ['sentence', 'paras', 'crlf'], entry='refill')
+        out.append({'entry': 'wrap_columns', 'feat': 'full', 'algo': 'F', 'sep': 'A', 'split': 'H', 'bw': True, 'cols': 2,
+                    'gen': 'tmpl', 'tmpl': 'ab ?d e', 'tname': 'tiny', 'wmax': 48 if q else 80})
         # line-breaking algorithms on fragments
         for n in range(0, (3 if q else 4) + 1):
             out.append({'entry': 'algo', 'feat': 'full', 'algo': 'F', 'num': 'fpany', 'n': min(n, 2 if q else 3), 'nlw': 1,
